@@ -43,7 +43,13 @@ impl Parse for WherePredicatesOrBool {
             return Self::from_lit(&lit);
         }
 
-        if let Ok(_star) = input.parse::<Token![*]>() {
+        // a lone `*` means all generic parameters, `*const T: Trait` is a predicate
+        if input.peek(Token![*]) && {
+            let fork = input.fork();
+            fork.parse::<Token![*]>().is_ok() && fork.is_empty()
+        } {
+            input.parse::<Token![*]>()?;
+
             return Ok(Self::All);
         }
 
